@@ -24,6 +24,7 @@ package ivfreader
 // representation invariant of IVFReader: NewWith refuses a zero time base, nothing else writes it
 //@ field IVFReader.timebaseNumerator props C37 C32 writers NewWith
 //@ field IVFReader.timebaseDenominator props C37 C32 writers NewWith
+//@ field IVFReader.stream props C37 C32 writers NewWith, (*IVFReader).ResetReader
 
 //@ func (*IVFReader).ptsToTimestamp
 //@ props C37 C32
